@@ -111,7 +111,7 @@ def chunked_bound(marks, maxline, total_payload, K, wire_len, endless_chunk, fin
     return off + 2 + max(maxline, line_len)
 
 
-def gen_case(rng, tier):
+def _gen_case(rng, tier):
     B = rng.choice([1, 2, 5, 16, 64, 200, 1024, 4096])
     M = rng.choice([None, None, max(1, B - 1), B, B + 1, 2 * B, 3 * B + 7, 10, 100, 1000, 4096])
     ptype = rng.choice(PTYPES)
@@ -138,11 +138,11 @@ def gen_case(rng, tier):
     return case
 
 
-def summarise(case):
+def _summarise(case):
     return dict(case)
 
 
-def run_case(case):
+def _run_case(case):
     res = new_result()
     log = Log(case.get('_seed'))
     ptype, T, M, B = case['ptype'], case['T'], case['M'], case['B']
@@ -276,7 +276,7 @@ def run_case(case):
     return res
 
 
-def shrink_candidates(case):
+def _shrink_candidates(case):
     for sc in simpler_schedules(case['sched']):
         yield dict(case, sched=sc)
     if case['framing'] == 'chunked':
@@ -294,3 +294,32 @@ def shrink_candidates(case):
         yield dict(case, temp='mem')
     if case['ptype'] != 'raw':
         yield dict(case, ptype='raw')
+
+
+# ---- concurrent twin runs (sim.twin): a share of the seeded cases is served by 2-3 threads at once --------
+from .. import twin as _twin   # noqa: E402
+
+TWIN_SHARE = 0.05
+
+
+def gen_case(rng, tier):
+    return _twin.maybe_wrap(rng, _gen_case(rng, tier), TWIN_SHARE)
+
+
+def run_case(case):
+    if 'twin' in case:
+        return _twin.run(lambda inner, i: _run_case(inner), case)
+    return _run_case(case)
+
+
+def shrink_candidates(case):
+    if 'twin' in case:
+        yield from _twin.shrink_candidates(case, _shrink_candidates)
+        return
+    yield from _shrink_candidates(case)
+
+
+def summarise(case):
+    if 'twin' in case:
+        return {'twin_of': _summarise(case["twin"]), 'threads': case.get('n', 2), 'plan': case['plan']}
+    return _summarise(case)
